@@ -104,12 +104,6 @@ theorem specImg_noComma {α : Type} (x : Ext α) (a : Acq) (c : Nat) (b₁ b₂ 
   have := h i (List.mem_range.mp hi) s (List.mem_range.mp hs) e (List.mem_range.mp he)
   rw [fixDec_noComma b₁ _ this, fixDec_noComma b₂ _ this]
 
-/-- the expected parameters: times of the first element, rounded mean interval -/
-def specParams (x : Ext V) (comma : Bool) (a : Acq) (ct : Nat) : Params :=
-  { times := (List.range a.samples.length).map fun i =>
-      (List.range a.nscans).map fun s => x.parse (fixDec comma (a.value i s 0 ct)),
-    scantime := Pew.CsvDir.npRound 4 (specScantime x comma a ct) }
-
 theorem params_renderRows_aux (x : Ext V) (sh : Nat → String) (comma : Bool) (a : Acq) (ct : Nat)
     (htime : a.chan ct = "Time") (h : RowsOK x sh a ct) :
     readParams x true comma (renderRows sh a) = some (specParams x comma a ct) := by
